@@ -42,10 +42,18 @@ UNPROVED = [
     'silkSyms_lockstep (design priority P1): the decoder model reads back exactly the symbols the mirrored encoder calls of '
     'silk_encode_indices / silk_encode_pulses wrote — a corollary of C08 (range coder) that is out of this property\'s scope; '
     'on the implementation it is searched (encoder final range == decoder final range), not proved',
-    'celtFrame_within_budget: ec_tell(dec) <= 8*len at the end of every frame (the INTERNAL_ERROR exit of celt_decoder.c:1357 is '
-    'never taken) and tell <= budget + slack inside quant_all_bands — needs the cost accounting of the range coder against the '
-    'pulse cache (C08/C17 territory); the model keeps the exit, and the differential run observes that neither the decoder nor '
-    'the model ever takes it',
+    'celtFrame_within_budget is FALSE on the unchanged tree (genuine finding, see tools/c03_budget_packets.txt): `ec_tell(dec) <= 8*len` at '
+    'the end of a CELT frame does not hold for every packet, the `ec_tell(dec) > 8*len` exit of celt_decode_with_ec_dred is reachable '
+    'and opus_decode then returns OPUS_INTERNAL_ERROR. What IS proved (celtBands_reads_within_tracked_budget) is the accounting the '
+    'code documents: remaining_bits = total_bits - ec_tell_frac - 1 per band, a PVQ index is read only if remaining_bits stays >= 0 '
+    'after charging the CACHED cost pulses2bits(q), an N=1 sign bit only while 8 is left. The cached cost bounds the true advance of '
+    'ec_tell_frac for 327 of the 329 reachable cache entries; for (N,K) = (16,5) and (12,15) ec_dec_uint codes V(N,K) as '
+    '((V-1)>>ftb)+1 symbols x 2^ftb raw values, 0.034 resp. 0.0003 eighth-bits more than log2_frac(V) rounded up, so ec_tell_frac '
+    'advances by cached+1 in about 3.4 % of the (16,5) reads; consecutive reads telescope, reads separated by a theta symbol do not, '
+    'and the single eighth-bit of slack covers one such event per band: a last coded band with two groups of (16,5) leaves that '
+    'exhausts its budget exactly ends at ec_tell_frac = total_bits + 1, i.e. ec_tell = 8*len + 1. Not proved: the upper bound '
+    'ec_tell <= 8*len + 1 (overrun at most groups-1 <= 7 eighth-bits), and that no other path (theta cost vs b, stereo N=2 sign bit) '
+    'overruns — both need a cost calculus for the range coder (C08) that does not exist yet',
     'pcm_within_tolerance: the PCM clause is a statement about float DSP relative to an external reference decoder that does not '
     'exist offline; guarded by the self-reference corpus (regression oracle) only',
 ]
